@@ -1,5 +1,91 @@
-//! `termop` cases: LTerm container operations (C21). Filled in by milestone 4.
+//! `termop` cases: one operation of the public `LTerm` container API per case (C21).
+//!
+//! Case: {"kind":"termop","op":name,"t":term,"u":term?,"xs":[term..]?,"i":n?,"vars":[ids]}.
+//! The harness only projects results; the single assertion it makes itself is the hash law
+//! (equal terms hash equally), because TLA+ has no notion of a hash value.
+use crate::build::Builder;
+use crate::project::{term_json, Names};
+use crate::{log, T};
+use proto_vulcan::lterm::LTerm;
 use serde_json::{json, Value};
+use std::collections::hash_map::DefaultHasher;
+use std::collections::HashMap;
+use std::hash::{Hash, Hasher};
+use std::rc::Rc;
+
+fn hash_of(t: &T) -> u64 {
+    let mut h = DefaultHasher::new();
+    t.hash(&mut h);
+    h.finish()
+}
+
 pub fn run(case: &Value) -> Value {
-    json!({"case": case["id"], "k": "end", "kind": "exhausted", "n": 0, "after": [], "tick": 0, "msg": "", "loc": ""})
+    let id = case["id"].clone();
+    let names = Names::new();
+    let mut b = Builder::new(Rc::new(Value::Null), names.clone());
+    if let Some(vs) = case["vars"].as_array() {
+        for v in vs {
+            b.declare(v.as_i64().unwrap(), "v");
+        }
+    }
+    let t = b.term(&case["t"]);
+    let op = case["op"].as_str().unwrap();
+    let xs: Vec<T> = case["xs"].as_array().map(|a| a.iter().map(|x| b.term(x)).collect()).unwrap_or_default();
+    let i = case["i"].as_u64().unwrap_or(0) as usize;
+    let tj = |x: &T| term_json(x, &names);
+    let res: Value = match op {
+        "eq" => {
+            let u = b.term(&case["u"]);
+            let e1 = t == u;
+            let e2 = u == t;
+            // hash law, checked here: equal terms hash equally and find each other in a HashMap
+            let mut m: HashMap<T, u8> = HashMap::new();
+            m.insert(t.clone(), 1);
+            let hash_ok = !e1 || (hash_of(&t) == hash_of(&u) && m.contains_key(&u));
+            json!(["eq", e1, e2, hash_ok, t == t])
+        }
+        "from_vec" => json!(["term", tj(&LTerm::from_vec(xs))]),
+        "from_array" => json!(["term", tj(&LTerm::from_array(&xs))]),
+        "improper_from_vec" => json!(["term", tj(&LTerm::improper_from_vec(xs))]),
+        "improper_from_array" => json!(["term", tj(&LTerm::improper_from_array(&xs))]),
+        "collect" => json!(["term", tj(&xs.into_iter().collect::<T>())]),
+        "extend" => {
+            let mut t2 = t.clone();
+            t2.extend(xs);
+            json!(["term", tj(&t2)])
+        }
+        "iter" => json!(["seq", t.iter().map(|x| tj(x)).collect::<Vec<Value>>()]),
+        "into_iter_ref" => json!(["seq", (&t).into_iter().map(|x| tj(x)).collect::<Vec<Value>>()]),
+        "iter_mut_set" => {
+            // assign xs[0] to every element through iter_mut
+            let mut t2 = t.clone();
+            for e in t2.iter_mut() {
+                *e = xs[0].clone();
+            }
+            json!(["term", tj(&t2)])
+        }
+        "index" => json!(["term", tj(&t[i])]),
+        "index_mut_set" => {
+            let mut t2 = t.clone();
+            t2[i] = xs[0].clone();
+            json!(["term", tj(&t2)])
+        }
+        "head" => match t.head() {
+            Some(h) => json!(["some", tj(h)]),
+            None => json!(["none"]),
+        },
+        "tail" => match t.tail() {
+            Some(h) => json!(["some", tj(h)]),
+            None => json!(["none"]),
+        },
+        "is_list" => json!(["bool", t.is_list()]),
+        "is_empty" => json!(["bool", t.is_empty()]),
+        "is_improper" => json!(["bool", t.is_improper()]),
+        "is_non_empty_list" => json!(["bool", t.is_non_empty_list()]),
+        "contains" => json!(["bool", t.contains(&xs[0])]),
+        "display" => json!(["str", format!("{}", t)]),
+        other => panic!("harness: unknown termop {}", other),
+    };
+    log(json!({"case": id, "k": "termop", "res": res}));
+    json!({"case": id, "k": "end", "kind": "exhausted", "n": 1, "after": [], "tick": 0, "msg": "", "loc": ""})
 }
